@@ -68,10 +68,55 @@ func runC01(r *Run) {
 			G{Name: "non-nil-hash", Pattern: "(" + vsum + `.MostVotedPrecommitHash == "")`, Holds: false},
 			G{Name: "header-matches-hash", Pattern: "($s.Voting.RoundView.ProposedHeaders[$i].Header.Hash == " + vsum + ".MostVotedPrecommitHash)", Holds: true},
 		)
-		arg := a.sh.Of(CallArg(cs.Instr, 1))
-		b, ok := Match("lit:tmi.nextHeightDetails{ValidatorSet:$ph.Header.NextValidatorSet,VotedHeader:$ph.Header,$...}", arg)
-		okArg := ok && strings.Contains(b["$ph"].String(), ".Voting.RoundView.ProposedHeaders[")
-		r.Check(okArg, "C01.2", con+"(argument)", w.InstrPos(cs.Instr), "the voted header is an element of the voting view's proposed headers and the next validator set is that header's NextValidatorSet: "+truncate(arg.String(), 300))
+		// whatever the shift's signature (a details struct, or separate parameters): every header handed
+		// to it is an element of the voting view's proposed headers and every validator set is that
+		// header's NextValidatorSet
+		nHdr, nSet, okArg := 0, 0, true
+		var shown []string
+		for i := 1; i < len(callCommon(cs.Instr).Args); i++ {
+			arg := a.sh.Of(CallArg(cs.Instr, i))
+			type item struct {
+				typ string
+				s   *Shape
+			}
+			var items []item
+			if arg.K == "lit" {
+				for k, f := range arg.F {
+					switch f {
+					case "ValidatorSet":
+						items = append(items, item{"tmconsensus.ValidatorSet", arg.A[k]})
+					case "VotedHeader":
+						items = append(items, item{"tmconsensus.Header", arg.A[k]})
+					}
+				}
+			} else {
+				items = append(items, item{TypeName(callCommon(cs.Instr).Args[i].Type()), arg})
+			}
+			for _, it := range items {
+				switch it.typ {
+				case "tmconsensus.ValidatorSet":
+					nSet++
+					shown = append(shown, "set="+truncate(it.s.String(), 100))
+					if !isCommittedNextValSet(it.s) {
+						okArg = false
+					}
+				case "tmconsensus.Header":
+					nHdr++
+					shown = append(shown, "header="+truncate(it.s.String(), 100))
+					alts := []*Shape{it.s}
+					if it.s.K == "phi" {
+						alts = it.s.A
+					}
+					for _, alt := range alts {
+						b, ok := Match("$ph.Header", alt)
+						if !ok || !strings.Contains(b["$ph"].String(), ".Voting.RoundView.ProposedHeaders[") {
+							okArg = false
+						}
+					}
+				}
+			}
+		}
+		r.Check(okArg && nHdr > 0 && nSet > 0, "C01.2", con+"(argument)", w.InstrPos(cs.Instr), "the voted header is an element of the voting view's proposed headers and the next validator set is that header's NextValidatorSet: "+strings.Join(shown, " ; "))
 	}
 
 	// ---------- C01.3
@@ -294,10 +339,13 @@ func checkReplay(r *Run, fn *ssa.Function) {
 		con := fmt.Sprintf("%s#newproof%d(keys)", name, i+1)
 		keys := a.sh.Of(CallArg(nw, 2)).String()
 		ok := keys == ks+".Voting.RoundView.ValidatorSet.PubKeys"
-		if !ok && strings.HasPrefix(keys, hdr+".ValidatorSet") && len(eqSets) > 0 && a.EveryPathTakes(nw, eqSets) {
+		// ValidatorSet.Equal compares the two hashes and the Validators slice, not the separate PubKeys
+		// slice: keys taken from the replayed header are acceptable only when derived from its
+		// (equality-checked) Validators, never its PubKeys field
+		if !ok && strings.Contains(keys, hdr+".ValidatorSet.Validators") && !strings.Contains(keys, hdr+".ValidatorSet.PubKeys") && len(eqSets) > 0 && a.EveryPathTakes(nw, eqSets) {
 			ok = true
 		}
-		r.Check(ok, "C01.4e", con, w.InstrPos(nw), "signatures of a replayed commit must be verified under the voting view's public keys (or an equality-checked copy); keys: "+keys)
+		r.Check(ok, "C01.4e", con, w.InstrPos(nw), "signatures of a replayed commit must be verified under the voting view's public keys (or keys derived from an equality-checked Validators slice; ValidatorSet.Equal does not cover the PubKeys field); keys: "+keys)
 	}
 	r.Rule("C01.4e", "replay: the validator set that verifies and weighs the replayed certificate is the one the chain prescribes (the voting view's), not the one embedded in the replayed header")
 }
@@ -309,7 +357,7 @@ func checkHandleProposedHeader(r *Run) {
 		r.Fail("C01.5", "anchor", "", "Mirror.HandleProposedHeader not found")
 		return
 	}
-	a := w.A(fn)
+	a := w.AU(fn)
 	name := FuncName(fn)
 	var targets []ssa.Instruction
 	for _, s := range a.Sends() {
